@@ -46,6 +46,9 @@ def pdefault(d):
         return "(DInt %s)" % ct.z(d["v"])
     if k == "bool":
         return "(DBool %s)" % ct.b(d["v"])
+    if k == "other":
+        v = eval(d["src"])          # noqa: S307 -- one of pc.OTHER_DEFAULT_SRC
+        return "(DOther %s %s)" % (ct.s(type(v).__name__), ct.s(repr(v)))
     return "(DList %s)" % ct.strs(d["v"])
 
 
@@ -108,11 +111,13 @@ class C01(Prop):
     ]
     assumptions = [
         "ASCII tokens and names; int() restricted to [+-]?[0-9]+",
-        "kinds str/int/bool/list only; contexts as produced by Collection.to_contexts()",
+        "kinds str/int/bool/list in full, float/complex/bytes/date defaults through the oracle of "
+        "parser_common.oracle_table (the kind itself is called on every substring of the command line); "
+        "contexts as produced by Collection.to_contexts()",
         "the observation is Parser.parse_argv's result (names + as_kwargs); binding of kwargs to the task "
         "body is C09's subject, execution order C04's",
     ]
-    not_modelled = ["float/tuple/custom kind callables", "non-ASCII", "help= handling",
+    not_modelled = ["kind callables other than str/int/bool/list/float/complex/bytes/date", "non-ASCII", "help= handling",
                     "Program.run end-to-end delivery to task bodies (Executor)"]
 
     def generate(self, rng, tier, n):
@@ -177,7 +182,8 @@ class C01(Prop):
 
     def to_coq(self, case, obs):
         specs = pc.ctx_specs(case["sigs"])
-        return "(mk %s %s %s %s %s)" % (ct.lst([pc.ctxspec(c) for c in specs]), sig_terms(case["sigs"], specs),
+        return "(mk %s %s %s %s %s)" % (ct.lst([pc.ctxspec(c, case["argv"]) for c in specs]),
+                                        sig_terms(case["sigs"], specs),
                                         invocation(case["inv"]), ct.strs(case["argv"]),
                                         ct.result(obs, pc.pobs))
 
@@ -200,6 +206,22 @@ class C01(Prop):
         a different call sequence / different value of that very argument)."""
         specs = pc.ctx_specs(case["sigs"])
         exp = pc.expected_calls(specs, case["inv"])
+        # F-C01c: a value given BY POSITION to a positional parameter that declares a default
+        # (it is never "missing", so the word is not taken for it): the parse fails, or yields
+        # another call sequence / other values for that call.
+        posdef = [ci for ci, c in enumerate(case["inv"]) for o in c["occs"]
+                  if "cluster" not in o and o["form"] == "pos"
+                  and specs[c["task"]]["args"][o["arg"]]["default"] is not None]
+        if posdef:
+            if "err" in obs:
+                return "F-C01c" if obs["err"] == "ParseError" else None
+            got = obs["ok"]["ctxs"][1:]
+            if len(got) != len(exp) or [g[0] for g in got] != [e[0] for e in exp]:
+                return "F-C01c"
+            diff = [ci for ci, (g, e) in enumerate(zip(got, exp))
+                    if sorted((k, json_key(v)) for k, v in g[1]) != sorted((k, json_key(v)) for k, v in e[1])]
+            if diff and set(diff) <= set(posdef):
+                return "F-C01c"
         glued_eq = [(ci, o["arg"]) for ci, c in enumerate(case["inv"]) for o in pc.flat_occs(c["occs"])
                     if o["form"] == "glued" and "=" in o["val"].get("s", "")]
         if "err" in obs:
@@ -240,6 +262,8 @@ class C01(Prop):
             inv = pc.gen_invocation(rng, specs, dash_values=rng.random() < 0.2)
             argv = flat(pc.spell_groups(specs, inv))
             case = {"sigs": sigs, "inv": inv, "argv": argv}
+            if any(pn == "self" for t in sigs["tasks"] for pn, _ in t["params"]):
+                continue      # a parameter named 'self' cannot be delivered at all: F-C09e (C09's finding)
             parse_obs = pc.run_parse(sigs, argv, "core", False, purity=False)
             if "err" in parse_obs:
                 continue                      # judged by the shard cases (F-C01b etc.)
